@@ -3,193 +3,495 @@
 //! Real `RecoverableRecorder` pairs (wrapper + `RecoveryHandle`, via the cfg(metrics_verif) `verif_build`)
 //! exercised by emitting threads and one thread that recovers (`into_inner`) or drops the handle, under the
 //! deterministic scheduler; every executed schedule is replayed on the Lean step machine (`recover run …`).
+//!
+//! Round 2: emissions carry labelled keys / varying metadata and the RETURNED handle is used (live while
+//! delivered, inert when ignored); the wrapped recorder may panic inside a forwarded call (`p`) or emit again
+//! through the wrapper from inside a forwarded call (`n`); free-running rounds without the scheduler
+//! (`recover free …`); a long-held emission against a spinning `into_inner`; the real
+//! `RecoverableRecorder::install` (success once per process, then failing installs) with the `metrics` macros.
 
 use crate::sched;
 use crate::util::*;
-use metrics::{Counter, Gauge, Histogram, Key, KeyName, Metadata, Recorder, SharedString, Unit};
+use metrics::{Counter, CounterFn, Gauge, GaugeFn, Histogram, HistogramFn, Key, KeyName, Label, Level, Metadata, Recorder, SharedString, Unit};
 use metrics_util::RecoverableRecorder;
 use std::cell::{Cell, RefCell};
-use std::sync::atomic::{AtomicBool, AtomicUsize, Ordering};
-use std::sync::{Arc, Mutex};
+use std::sync::atomic::{AtomicBool, AtomicU64, AtomicUsize, Ordering};
+use std::sync::{Arc, Barrier, Mutex};
+use std::time::{Duration, Instant};
 
-static META: metrics::Metadata<'static> = metrics::Metadata::new("mv", metrics::Level::INFO, None);
+static METAS: [Metadata<'static>; 4] = [
+    Metadata::new("mv", Level::INFO, None),
+    Metadata::new("mv::deep", Level::DEBUG, Some("harness::c20")),
+    Metadata::new("other", Level::ERROR, Some("m")),
+    Metadata::new("", Level::TRACE, None),
+];
+const UNITS: [Option<Unit>; 4] = [None, Some(Unit::Bytes), Some(Unit::Seconds), Some(Unit::Count)];
+const MAX_THREADS: usize = 8;
+
+type DynRec = Arc<dyn Recorder + Send + Sync>;
 
 thread_local! {
-    static REACHED: Cell<bool> = Cell::new(false);
-    /// which Recorder method the wrapped recorder was entered through, with its arguments
-    static ARRIVED: RefCell<Option<String>> = RefCell::new(None);
+    /// what the wrapped recorder(s) were entered with on this thread, in order of entry (a stack: every
+    /// `do_emit` truncates back to the depth it started at)
+    static ARRIVED: RefCell<Vec<String>> = RefCell::new(vec![]);
+    /// behaviour of the recorder double on its next entry on this thread: 0 plain, 1 panic when leaving,
+    /// 2 emit once more (through `NEST`) before leaving, 3 stay inside until `HOLD_RELEASE`
+    static MODE: Cell<u8> = Cell::new(0);
+    static NEST: RefCell<Option<(DynRec, Em, Arc<Shared>)>> = RefCell::new(None);
+    static NEST_RESULT: RefCell<Option<&'static str>> = RefCell::new(None);
+    /// index of the emitting thread (selects the cells the recorder double hands out)
+    static TIDX: Cell<usize> = Cell::new(0);
+    /// the thread is the one spinning in `into_inner` in the long-hold round (see `hold_hook`)
+    static IS_ENDER: Cell<bool> = Cell::new(false);
+    /// stress rounds: the recorder double skips its own bookkeeping of arguments (tight emission loops)
+    static LIGHT: Cell<bool> = Cell::new(false);
 }
 
-#[derive(Default)]
+/// the storage behind the handles the recorder double hands out
+struct Cellv(AtomicU64);
+impl CounterFn for Cellv {
+    fn increment(&self, v: u64) {
+        self.0.fetch_add(v, Ordering::SeqCst);
+    }
+    fn absolute(&self, v: u64) {
+        self.0.store(v, Ordering::SeqCst);
+    }
+}
+impl GaugeFn for Cellv {
+    fn increment(&self, v: f64) {
+        self.0.fetch_add(v as u64, Ordering::SeqCst);
+    }
+    fn decrement(&self, v: f64) {
+        self.0.fetch_sub(v as u64, Ordering::SeqCst);
+    }
+    fn set(&self, v: f64) {
+        self.0.store(v as u64, Ordering::SeqCst);
+    }
+}
+impl HistogramFn for Cellv {
+    fn record(&self, v: f64) {
+        self.0.fetch_add(v as u64, Ordering::SeqCst);
+    }
+}
+
+#[repr(align(128))]
+struct Padded(AtomicUsize);
+
 struct Shared {
+    id: usize,
     inside: AtomicUsize,
     finalised: AtomicUsize,
     entered_after_final: AtomicBool,
     final_while_inside: AtomicBool,
+    /// per emitting thread, per kind (counter / gauge / histogram): only that thread ever touches its cells
+    cells: Vec<[Arc<Cellv>; 3]>,
+    /// stress rounds: per emitting thread "I am inside" (own cache line each, so that the emitters do not slow
+    /// each other down and spend most of their time at the upgrade / release of the strong reference)
+    light_inside: Vec<Padded>,
+    /// long-hold round: an emission is inside and waits / may leave
+    hold_entered: AtomicBool,
+    hold_release: AtomicBool,
+}
+impl Shared {
+    fn new(id: usize) -> Arc<Shared> {
+        let mk = || Arc::new(Cellv(AtomicU64::new(0)));
+        Arc::new(Shared {
+            id,
+            inside: AtomicUsize::new(0),
+            finalised: AtomicUsize::new(0),
+            entered_after_final: AtomicBool::new(false),
+            final_while_inside: AtomicBool::new(false),
+            cells: (0..MAX_THREADS).map(|_| [mk(), mk(), mk()]).collect(),
+            light_inside: (0..MAX_THREADS).map(|_| Padded(AtomicUsize::new(0))).collect(),
+            hold_entered: AtomicBool::new(false),
+            hold_release: AtomicBool::new(false),
+        })
+    }
+    /// calls executing inside the recorder double right now
+    fn inside_now(&self) -> usize {
+        self.inside.load(Ordering::SeqCst) + self.light_inside.iter().map(|p| p.0.load(Ordering::SeqCst)).sum::<usize>()
+    }
+    fn cell_sum(&self) -> u64 {
+        self.cells.iter().flat_map(|c| c.iter()).map(|c| c.0.load(Ordering::SeqCst)).fold(0u64, |a, b| a.wrapping_add(b))
+    }
 }
 
 struct Rec {
     sh: Arc<Shared>,
 }
 impl Rec {
-    fn enter(&self, what: String) {
-        ARRIVED.with(|a| *a.borrow_mut() = Some(what));
+    fn enter(&self, what: impl FnOnce() -> String) {
+        if LIGHT.with(|l| l.get()) {
+            let t = TIDX.with(|t| t.get());
+            if self.sh.finalised.load(Ordering::SeqCst) > 0 {
+                self.sh.entered_after_final.store(true, Ordering::SeqCst);
+            }
+            self.sh.light_inside[t].0.store(1, Ordering::SeqCst);
+            self.sh.light_inside[t].0.store(0, Ordering::SeqCst);
+            return;
+        }
+        ARRIVED.with(|a| a.borrow_mut().push(what()));
         if self.sh.finalised.load(Ordering::SeqCst) > 0 {
             self.sh.entered_after_final.store(true, Ordering::SeqCst);
         }
         self.sh.inside.fetch_add(1, Ordering::SeqCst);
-        REACHED.with(|r| r.set(true));
+        let mode = MODE.with(|m| m.replace(0));
+        if mode == 2 {
+            // the recorder emits its own telemetry from inside the forwarded call
+            if let Some((w, em, sh)) = NEST.with(|n| n.borrow_mut().take()) {
+                let r = do_emit(&*w, &em, &sh, TIDX.with(|t| t.get()), 0, None);
+                NEST_RESULT.with(|x| *x.borrow_mut() = Some(r));
+            }
+        }
+        if mode == 3 {
+            self.sh.hold_entered.store(true, Ordering::SeqCst);
+            let t0 = Instant::now();
+            while !self.sh.hold_release.load(Ordering::SeqCst) && t0.elapsed() < Duration::from_secs(20) {
+                std::hint::spin_loop();
+            }
+        }
         metrics::verif::point("rec.inside");
         self.sh.inside.fetch_sub(1, Ordering::SeqCst);
+        if mode == 1 {
+            // a panic of the wrapped recorder (resume_unwind: no panic-hook noise); the caller survives it
+            std::panic::resume_unwind(Box::new("mv: recorder double panics"));
+        }
     }
 }
 impl Drop for Rec {
     fn drop(&mut self) {
-        if self.sh.inside.load(Ordering::SeqCst) > 0 {
+        if self.sh.inside_now() > 0 {
             self.sh.final_while_inside.store(true, Ordering::SeqCst);
         }
         self.sh.finalised.fetch_add(1, Ordering::SeqCst);
     }
 }
+fn show_key(k: &Key) -> String {
+    let labels: Vec<String> = k.labels().map(|l| format!("{}={}", l.key(), l.value())).collect();
+    format!("{}{{{}}}", k.name(), labels.join(","))
+}
+fn show_meta(m: &Metadata<'_>) -> String {
+    format!("target={} level={:?} mp={:?}", m.target(), m.level(), m.module_path())
+}
 impl Recorder for Rec {
     fn describe_counter(&self, k: KeyName, u: Option<Unit>, d: SharedString) {
-        self.enter(format!("describe_counter {} {:?} {}", k.as_str(), u, d))
+        self.enter(|| format!("describe_counter {} {:?} {}", k.as_str(), u, d))
     }
     fn describe_gauge(&self, k: KeyName, u: Option<Unit>, d: SharedString) {
-        self.enter(format!("describe_gauge {} {:?} {}", k.as_str(), u, d))
+        self.enter(|| format!("describe_gauge {} {:?} {}", k.as_str(), u, d))
     }
     fn describe_histogram(&self, k: KeyName, u: Option<Unit>, d: SharedString) {
-        self.enter(format!("describe_histogram {} {:?} {}", k.as_str(), u, d))
+        self.enter(|| format!("describe_histogram {} {:?} {}", k.as_str(), u, d))
     }
     fn register_counter(&self, k: &Key, m: &Metadata<'_>) -> Counter {
-        self.enter(format!("register_counter {} {}", k.name(), m.target()));
-        Counter::noop()
+        let c = self.sh.cells[TIDX.with(|t| t.get())][0].clone();
+        self.enter(|| format!("register_counter {} {}", show_key(k), show_meta(m)));
+        Counter::from_arc(c)
     }
     fn register_gauge(&self, k: &Key, m: &Metadata<'_>) -> Gauge {
-        self.enter(format!("register_gauge {} {}", k.name(), m.target()));
-        Gauge::noop()
+        let c = self.sh.cells[TIDX.with(|t| t.get())][1].clone();
+        self.enter(|| format!("register_gauge {} {}", show_key(k), show_meta(m)));
+        Gauge::from_arc(c)
     }
     fn register_histogram(&self, k: &Key, m: &Metadata<'_>) -> Histogram {
-        self.enter(format!("register_histogram {} {}", k.name(), m.target()));
-        Histogram::noop()
+        let c = self.sh.cells[TIDX.with(|t| t.get())][2].clone();
+        self.enter(|| format!("register_histogram {} {}", show_key(k), show_meta(m)));
+        Histogram::from_arc(c)
     }
 }
+
+/// one emission: which of the six forwarded methods, with which arguments
+#[derive(Clone, Debug)]
+struct Em {
+    method: usize,
+    name: String,
+    labels: Vec<(String, String)>,
+    unit: usize,
+    desc: String,
+    meta: usize,
+    val: u64,
+}
+const METHODS: [&str; 6] = ["register_counter", "describe_gauge", "register_histogram", "describe_counter", "register_gauge", "describe_histogram"];
+
+fn gen_em(r: &mut Rng) -> Em {
+    let names = ["xa", "xb", "req.total", "a b", "é", "", "x:y|z"];
+    let lk = ["k", "l", "", "k"];
+    let lv = ["v", "", "w w", "1"];
+    let nl = *r.pick(&[0usize, 0, 1, 2, 3]);
+    Em {
+        method: r.below(6),
+        name: r.pick_str(&names).to_string(),
+        labels: (0..nl).map(|_| (r.pick_str(&lk).to_string(), r.pick_str(&lv).to_string())).collect(),
+        unit: r.below(UNITS.len()),
+        desc: r.pick_str(&["", "dc", "a description", "ü"]).to_string(),
+        meta: r.below(METAS.len()),
+        val: 1 + r.below(1000) as u64,
+    }
+}
+
+fn expect_str(em: &Em) -> String {
+    let m = &METAS[em.meta];
+    let key = format!("{}{{{}}}", em.name, em.labels.iter().map(|(k, v)| format!("{}={}", k, v)).collect::<Vec<_>>().join(","));
+    let meta = format!("target={} level={:?} mp={:?}", m.target(), m.level(), m.module_path());
+    match em.method {
+        0 | 2 | 4 => format!("{} {} {}", METHODS[em.method], key, meta),
+        _ => format!("{} {} {:?} {}", METHODS[em.method], em.name, UNITS[em.unit], em.desc),
+    }
+}
+
+/// Performs one emission through `w` (whose wrapped recorder double is `sh`) on emitting thread `t` and says
+/// what became of it: `delivered` (entered the recorder as exactly this call; a returned handle is live),
+/// `panicked` (entered, the recorder panicked, caught here), `ignored` (not entered; a returned handle is
+/// inert), or one of the failure words `misrouted` / `dead-handle` / `live-handle-after-ignore`.
+/// `mode` is the recorder double's behaviour for this entry; `nest` the emission it makes from inside.
+fn do_emit(w: &dyn Recorder, em: &Em, sh: &Arc<Shared>, t: usize, mode: u8, nest: Option<(DynRec, Em, Arc<Shared>)>) -> &'static str {
+    let depth = ARRIVED.with(|a| a.borrow().len());
+    MODE.with(|m| m.set(mode));
+    NEST.with(|n| *n.borrow_mut() = nest);
+    let key = Key::from_parts(em.name.clone(), em.labels.iter().map(|(k, v)| Label::new(k.clone(), v.clone())).collect::<Vec<_>>());
+    let meta = &METAS[em.meta];
+    let unit = UNITS[em.unit];
+    let kind = match em.method {
+        0 => Some(0usize),
+        4 => Some(1),
+        2 => Some(2),
+        _ => None,
+    };
+    // the returned handle is used at once; only thread `t` ever touches cells[t], so the delta is exact with or
+    // without the scheduler
+    let r = std::panic::catch_unwind(std::panic::AssertUnwindSafe(|| -> (u64, u64) {
+        let snap = || [0usize, 1, 2].map(|k| sh.cells[t][k].0.load(Ordering::SeqCst));
+        // (change of the cell of the handle's own kind, change of all three cells of this thread)
+        let delta = |k: usize, b: [u64; 3], a: [u64; 3]| {
+            (a[k].wrapping_sub(b[k]), (0..3).fold(0u64, |s, i| s.wrapping_add(a[i].wrapping_sub(b[i]))))
+        };
+        match em.method {
+            0 => {
+                let h = w.register_counter(&key, meta);
+                let b = snap();
+                h.increment(em.val);
+                delta(0, b, snap())
+            }
+            4 => {
+                let h = w.register_gauge(&key, meta);
+                let b = snap();
+                h.increment(em.val as f64);
+                delta(1, b, snap())
+            }
+            2 => {
+                let h = w.register_histogram(&key, meta);
+                let b = snap();
+                h.record(em.val as f64);
+                delta(2, b, snap())
+            }
+            1 => {
+                w.describe_gauge(KeyName::from(em.name.clone()), unit, SharedString::from(em.desc.clone()));
+                (0, 0)
+            }
+            3 => {
+                w.describe_counter(KeyName::from(em.name.clone()), unit, SharedString::from(em.desc.clone()));
+                (0, 0)
+            }
+            _ => {
+                w.describe_histogram(KeyName::from(em.name.clone()), unit, SharedString::from(em.desc.clone()));
+                (0, 0)
+            }
+        }
+    }));
+    MODE.with(|m| m.set(0));
+    NEST.with(|n| *n.borrow_mut() = None);
+    let mine = ARRIVED.with(|a| {
+        let mut a = a.borrow_mut();
+        let x = a.get(depth).cloned();
+        a.truncate(depth);
+        x
+    });
+    let want = expect_str(em);
+    match (mine, r) {
+        (None, Ok((own, total))) => {
+            if own != 0 || total != 0 {
+                "live-handle-after-ignore"
+            } else {
+                "ignored"
+            }
+        }
+        (None, Err(_)) => "panic-without-entry",
+        (Some(got), r) => {
+            if got != want {
+                MISROUTED.lock().unwrap().push(format!("sent [{}] arrived [{}]", want, got));
+                return "misrouted";
+            }
+            match r {
+                Err(_) => "panicked",
+                Ok((own, total)) => {
+                    if kind.is_some() && (own != em.val || total != em.val) {
+                        "dead-handle"
+                    } else {
+                        "delivered"
+                    }
+                }
+            }
+        }
+    }
+}
+
+static MISROUTED: Mutex<Vec<String>> = Mutex::new(vec![]);
 
 #[derive(Clone, Copy, Debug, PartialEq)]
 enum Call {
     Emit,
     IntoInner,
     DropHandle,
+    EmitPanic,
+    EmitNested,
+}
+impl Call {
+    fn is_emission(self) -> bool {
+        matches!(self, Call::Emit | Call::EmitPanic | Call::EmitNested)
+    }
 }
 
-fn prog_tok(p: &[Call]) -> String {
+#[derive(Clone, Debug)]
+struct Step {
+    call: Call,
+    em: Option<Em>,
+    nested: Option<Em>,
+}
+fn st(call: Call, r: &mut Rng) -> Step {
+    Step {
+        call,
+        em: if call.is_emission() { Some(gen_em(r)) } else { None },
+        nested: if call == Call::EmitNested { Some(gen_em(r)) } else { None },
+    }
+}
+
+fn prog_tok(p: &[Step]) -> String {
     if p.is_empty() {
         return "-".into();
     }
     p.iter()
-        .map(|c| match c {
+        .map(|c| match c.call {
             Call::Emit => "e",
             Call::IntoInner => "i",
             Call::DropHandle => "d",
+            Call::EmitPanic => "p",
+            Call::EmitNested => "n",
         })
         .collect::<Vec<_>>()
         .join("+")
 }
+fn progs_tok(progs: &[Vec<Step>]) -> String {
+    list(progs.iter().map(|p| prog_tok(p)))
+}
+
+/// what became of one call of a thread program
+#[derive(Clone, Debug, Default)]
+struct CallRec {
+    res: String,
+    nested: Option<String>,
+    /// free-running rounds: global sequence numbers taken right before / after the call
+    t_start: u64,
+    t_end: u64,
+}
 
 struct Outcome {
-    results: Vec<Vec<String>>,
+    calls: Vec<Vec<CallRec>>,
     finalised_by_library: usize,
     recovered: bool,
+    recovered_wrong_recorder: bool,
+    into_inner_panicked: bool,
     busy_at_recovery: bool,
     late: bool,
     final_while_inside: bool,
     misrouted: Vec<String>,
+    unfinished: bool,
     run: sched::RunResult,
 }
+impl Outcome {
+    fn results(&self) -> Vec<Vec<String>> {
+        self.calls
+            .iter()
+            .map(|cs| {
+                let mut v = vec![];
+                for c in cs {
+                    if let Some(n) = &c.nested {
+                        v.push(n.clone());
+                    }
+                    v.push(c.res.clone());
+                }
+                v
+            })
+            .collect()
+    }
+}
 
-fn execute(progs: &[Vec<Call>], schedule: &[usize]) -> Outcome {
-    let sh = Arc::new(Shared::default());
+/// Runs the thread programs against one fresh pair. `schedule = Some(..)`: under the deterministic scheduler;
+/// `None`: free-running OS threads released together by a barrier (no hook installed, the points are no-ops).
+fn execute(progs: &[Vec<Step>], schedule: Option<&[usize]>) -> Outcome {
+    let sh = Shared::new(1);
     let (wrapped, handle) = RecoverableRecorder::new(Rec { sh: sh.clone() }).verif_build();
-    let wrapped: Arc<dyn Recorder + Send + Sync> = Arc::new(wrapped);
+    let wrapped: DynRec = Arc::new(wrapped);
     let handle = Arc::new(Mutex::new(Some(handle)));
-    let results: Arc<Mutex<Vec<Vec<String>>>> = Arc::new(Mutex::new(vec![vec![]; progs.len()]));
+    let calls: Arc<Mutex<Vec<Vec<CallRec>>>> = Arc::new(Mutex::new(vec![vec![]; progs.len()]));
     let recovered = Arc::new(AtomicBool::new(false));
+    let wrong = Arc::new(AtomicBool::new(false));
+    let ii_panicked = Arc::new(AtomicBool::new(false));
     let busy = Arc::new(AtomicBool::new(false));
-    let lib_final_before_recovery = Arc::new(AtomicUsize::new(0));
-    let misrouted_all: Arc<Mutex<Vec<String>>> = Arc::new(Mutex::new(vec![]));
+    let tick = Arc::new(AtomicU64::new(1));
+    let barrier = Arc::new(Barrier::new(progs.len()));
+    let free = schedule.is_none();
+    MISROUTED.lock().unwrap().clear();
     let mut bodies: Vec<Box<dyn FnOnce() + Send + 'static>> = vec![];
     for (t, prog) in progs.iter().enumerate() {
         let prog = prog.clone();
         let wrapped = wrapped.clone();
         let handle = handle.clone();
-        let results = results.clone();
+        let calls = calls.clone();
         let sh = sh.clone();
         let recovered = recovered.clone();
+        let wrong = wrong.clone();
+        let ii_panicked = ii_panicked.clone();
         let busy = busy.clone();
-        let lfb = lib_final_before_recovery.clone();
-        let misrouted = misrouted_all.clone();
+        let tick = tick.clone();
+        let barrier = barrier.clone();
         bodies.push(Box::new(move || {
-            let mut k = t * 2;
+            TIDX.with(|x| x.set(t));
+            ARRIVED.with(|a| a.borrow_mut().clear());
+            if free {
+                barrier.wait();
+            }
             for c in prog {
-                let r = match c {
-                    Call::Emit => {
-                        REACHED.with(|r| r.set(false));
-                        ARRIVED.with(|a| *a.borrow_mut() = None);
-                        k += 1;
-                        // all six forwarded methods in turn, each with its own name / unit / description
-                        let name: &'static str = ["xa", "xb", "xc", "xd", "xe", "xf"][k % 6];
-                        let expect = match k % 6 {
-                            0 => {
-                                let _ = wrapped.register_counter(&Key::from_name(name), &META);
-                                format!("register_counter {} mv", name)
-                            }
-                            1 => {
-                                wrapped.describe_gauge(KeyName::from_const_str(name), Some(Unit::Bytes), SharedString::const_str("dg"));
-                                format!("describe_gauge {} {:?} dg", name, Some(Unit::Bytes))
-                            }
-                            2 => {
-                                let _ = wrapped.register_histogram(&Key::from_name(name), &META);
-                                format!("register_histogram {} mv", name)
-                            }
-                            3 => {
-                                wrapped.describe_counter(KeyName::from_const_str(name), None, SharedString::const_str("dc"));
-                                format!("describe_counter {} {:?} dc", name, None::<Unit>)
-                            }
-                            4 => {
-                                let _ = wrapped.register_gauge(&Key::from_name(name), &META);
-                                format!("register_gauge {} mv", name)
-                            }
-                            _ => {
-                                wrapped.describe_histogram(KeyName::from_const_str(name), Some(Unit::Seconds), SharedString::const_str("dh"));
-                                format!("describe_histogram {} {:?} dh", name, Some(Unit::Seconds))
-                            }
-                        };
-                        let arrived = ARRIVED.with(|a| a.borrow_mut().take());
-                        if REACHED.with(|r| r.get()) {
-                            if arrived.as_deref() == Some(expect.as_str()) {
-                                "delivered"
-                            } else {
-                                misrouted.lock().unwrap().push(format!("sent [{}] arrived [{}]", expect, arrived.unwrap_or_default()));
-                                "misrouted"
-                            }
-                        } else {
-                            "ignored"
-                        }
+                let mut rec = CallRec { t_start: tick.fetch_add(1, Ordering::SeqCst), ..Default::default() };
+                let r: &str = match c.call {
+                    Call::Emit => do_emit(&*wrapped, c.em.as_ref().unwrap(), &sh, t, 0, None),
+                    Call::EmitPanic => do_emit(&*wrapped, c.em.as_ref().unwrap(), &sh, t, 1, None),
+                    Call::EmitNested => {
+                        NEST_RESULT.with(|x| *x.borrow_mut() = None);
+                        let r = do_emit(&*wrapped, c.em.as_ref().unwrap(), &sh, t, 2, Some((wrapped.clone(), c.nested.clone().unwrap(), sh.clone())));
+                        rec.nested = NEST_RESULT.with(|x| x.borrow_mut().take()).map(|n| format!("nested-{}", n));
+                        r
                     }
                     Call::IntoInner => {
                         let h = handle.lock().unwrap().take();
                         match h {
-                            Some(h) => {
-                                let rec = h.into_inner();
-                                if sh.inside.load(Ordering::SeqCst) > 0 {
-                                    busy.store(true, Ordering::SeqCst);
+                            Some(h) => match std::panic::catch_unwind(std::panic::AssertUnwindSafe(move || h.into_inner())) {
+                                Ok(rec) => {
+                                    if sh.inside.load(Ordering::SeqCst) > 0 {
+                                        busy.store(true, Ordering::SeqCst);
+                                    }
+                                    if rec.sh.id != sh.id || !Arc::ptr_eq(&rec.sh, &sh) {
+                                        wrong.store(true, Ordering::SeqCst);
+                                    }
+                                    recovered.store(true, Ordering::SeqCst);
+                                    // the caller now owns the recorder; its eventual drop is the caller's, not the library's
+                                    std::mem::forget(rec);
+                                    "recovered"
                                 }
-                                lfb.store(sh.finalised.load(Ordering::SeqCst), Ordering::SeqCst);
-                                recovered.store(true, Ordering::SeqCst);
-                                // the caller now owns the recorder; its eventual drop is the caller's, not the library's
-                                std::mem::forget(rec);
-                                "recovered"
-                            }
+                                Err(_) => {
+                                    ii_panicked.store(true, Ordering::SeqCst);
+                                    "into-inner-panicked"
+                                }
+                            },
                             None => "nohandle",
                         }
                     }
@@ -200,28 +502,56 @@ fn execute(progs: &[Vec<Call>], schedule: &[usize]) -> Outcome {
                         "dropped"
                     }
                 };
-                results.lock().unwrap()[t].push(r.to_string());
+                rec.res = r.to_string();
+                rec.t_end = tick.fetch_add(1, Ordering::SeqCst);
+                calls.lock().unwrap()[t].push(rec);
             }
         }));
     }
-    let run = sched::run(bodies, schedule);
-    let res = results.lock().unwrap().clone();
-    let mis = misrouted_all.lock().unwrap().clone();
+    let mut unfinished = false;
+    let run = match schedule {
+        Some(s) => sched::run(bodies, s),
+        None => {
+            let hs: Vec<_> = bodies.into_iter().map(|b| std::thread::spawn(b)).collect();
+            // watchdog: a correct into_inner returns as soon as the (finite) emitters are done; 20 s is three
+            // orders of magnitude above the expected round time
+            let t0 = Instant::now();
+            while hs.iter().any(|h| !h.is_finished()) && t0.elapsed() < Duration::from_secs(20) {
+                std::thread::sleep(Duration::from_micros(50));
+            }
+            let mut panicked = vec![];
+            for (t, h) in hs.into_iter().enumerate() {
+                if h.is_finished() {
+                    if h.join().is_err() {
+                        panicked.push(t);
+                    }
+                } else {
+                    unfinished = true;
+                }
+            }
+            sched::RunResult { trace: vec![], choices: vec![], deadlock: false, timed_out: false, panicked }
+        }
+    };
+    let cs = calls.lock().unwrap().clone();
+    let mis = MISROUTED.lock().unwrap().clone();
     Outcome {
-        results: res,
+        calls: cs,
         finalised_by_library: sh.finalised.load(Ordering::SeqCst),
         recovered: recovered.load(Ordering::SeqCst),
+        recovered_wrong_recorder: wrong.load(Ordering::SeqCst),
+        into_inner_panicked: ii_panicked.load(Ordering::SeqCst),
         busy_at_recovery: busy.load(Ordering::SeqCst),
         late: sh.entered_after_final.load(Ordering::SeqCst),
         final_while_inside: sh.final_while_inside.load(Ordering::SeqCst),
         misrouted: mis,
+        unfinished,
         run,
     }
 }
 
 fn answer(o: &Outcome) -> String {
     let labels: Vec<&str> = o.run.trace.iter().map(|(_, id)| *id).collect();
-    let res = list(o.results.iter().map(|r| if r.is_empty() { ".".to_string() } else { r.join("+") }));
+    let res = list(o.results().iter().map(|r| if r.is_empty() { ".".to_string() } else { r.join("+") }));
     format!(
         "{} | {} | finalised={} recovered={} late={} busy={}",
         labels.join("."),
@@ -233,50 +563,109 @@ fn answer(o: &Outcome) -> String {
     )
 }
 
-fn oracle(out: &mut Out, progs: &[Vec<Call>], o: &Outcome) {
-    if o.run.deadlock || o.run.timed_out || !o.run.panicked.is_empty() {
-        out.oracle_fail("recoverable recorder: deadlock, timeout or panic", &format!("{:?}", o.run.trace));
-        return;
+/// oracles that do not need a trace (scheduled and free-running rounds alike)
+fn oracle_common(out: &mut Out, progs: &[Vec<Step>], o: &Outcome, ctx: &str) -> bool {
+    if o.run.deadlock || o.run.timed_out || !o.run.panicked.is_empty() || o.unfinished {
+        out.oracle_fail("recoverable recorder: deadlock, timeout or panic", &format!("{} unfinished={} {:?}", ctx, o.unfinished, o.run.trace));
+        return false;
+    }
+    if o.into_inner_panicked {
+        out.oracle_fail("into_inner panicked instead of waiting for the emissions in flight and returning the recorder", ctx);
+    }
+    if o.recovered_wrong_recorder {
+        out.oracle_fail("into_inner returned a recorder that is not the original one", ctx);
     }
     if o.busy_at_recovery {
-        out.oracle_fail("into_inner returned while an emission was executing inside the recorder", &format!("{:?}", o.run.trace));
+        out.oracle_fail("into_inner returned while an emission was executing inside the recorder", ctx);
     }
     if let Some(m) = o.misrouted.first() {
-        out.oracle_fail("an emission through the wrapper reached the wrapped recorder as a different call", m);
+        out.oracle_fail("an emission through the wrapper reached the wrapped recorder as a different call", &format!("{} {}", m, ctx));
     }
     if o.late {
-        out.oracle_fail("a call entered the recorder after its finalisation began", &format!("{:?}", o.run.trace));
+        out.oracle_fail("a call entered the recorder after its finalisation began", ctx);
     }
     if o.final_while_inside {
-        out.oracle_fail("the recorder was finalised while a call was inside it", &format!("{:?}", o.run.trace));
+        out.oracle_fail("the recorder was finalised while a call was inside it", ctx);
     }
-    let has_drop = progs.iter().flatten().any(|c| *c == Call::DropHandle);
+    let has_drop = progs.iter().flatten().any(|c| c.call == Call::DropHandle);
     let want_final = if o.recovered { 0 } else if has_drop { 1 } else { 0 };
     if o.finalised_by_library != want_final {
         out.oracle_fail(
             "recorder not dropped exactly once after the handle was dropped / dropped although recovered",
-            &format!("finalised {} want {} trace {:?}", o.finalised_by_library, want_final, o.run.trace),
+            &format!("finalised {} want {} {}", o.finalised_by_library, want_final, ctx),
         );
+    }
+    for (t, cs) in o.calls.iter().enumerate() {
+        for (i, c) in cs.iter().enumerate() {
+            match c.res.as_str() {
+                "dead-handle" => out.oracle_fail("an emission reached the recorder but the handle returned through the wrapper is inert", &format!("thread {} call {} {}", t, i, ctx)),
+                "live-handle-after-ignore" => out.oracle_fail("an ignored emission returned a handle that is not inert", &format!("thread {} call {} {}", t, i, ctx)),
+                "panic-without-entry" => out.oracle_fail("the wrapper panicked without entering the recorder", &format!("thread {} call {} {}", t, i, ctx)),
+                _ => {}
+            }
+            // the thread holds a strong reference while it is inside: its re-entrant emission cannot find the recorder gone
+            if progs[t][i].call == Call::EmitNested && (c.res == "delivered" || c.res == "panicked") && c.nested.as_deref() != Some("nested-delivered") {
+                out.oracle_fail(
+                    "an emission made from inside the recorder (same wrapper, the thread holds a strong reference) did not reach the recorder",
+                    &format!("thread {} call {} nested {:?} {}", t, i, c.nested, ctx),
+                );
+            }
+        }
+    }
+    true
+}
+
+fn oracle(out: &mut Out, progs: &[Vec<Step>], o: &Outcome) {
+    let ctx = format!("{:?}", o.run.trace);
+    if !oracle_common(out, progs, o, &ctx) {
+        return;
     }
     // position in the trace of the step that ended the handle's life
     let end_step = o.run.trace.iter().position(|(_, id)| *id == "h.drop");
     // into_inner: the successful try_unwrap is the LAST grant of that point
     let rec_step = if o.recovered { o.run.trace.iter().rposition(|(_, id)| *id == "spin0:recover.try_unwrap") } else { None };
-    // per emission: the grant index of its upgrade step
-    let mut k = vec![0usize; progs.len()];
+    // walk the trace: per emission the grant index of its (outer) upgrade step and of the grant at which it left
+    let n = progs.len();
+    let mut next_call = vec![0usize; n];
+    let mut nested_pending = vec![false; n];
+    let mut leaves_left = vec![0usize; n];
+    let mut open: Vec<Option<usize>> = vec![None; n]; // index into `spans` of the thread's open outer call
+    let mut spans: Vec<(usize, usize, usize, usize)> = vec![]; // (thread, call, upgrade grant, leave grant)
+    let mut ups: Vec<(usize, usize, usize)> = vec![]; // (thread, call, upgrade grant) of every emission
     for (gi, (t, id)) in o.run.trace.iter().enumerate() {
-        if *id != "weak.upgrade" {
-            continue;
+        let t = *t;
+        if *id == "weak.upgrade" {
+            if nested_pending[t] {
+                nested_pending[t] = false;
+                continue;
+            }
+            let Some(i) = (next_call[t]..progs[t].len()).find(|i| progs[t][*i].call.is_emission()) else { continue };
+            next_call[t] = i + 1;
+            let Some(c) = o.calls[t].get(i) else { continue };
+            ups.push((t, i, gi));
+            if c.res != "ignored" {
+                nested_pending[t] = c.nested.is_some();
+                leaves_left[t] = if c.nested.as_deref() == Some("nested-delivered") { 2 } else { 1 };
+                open[t] = Some(spans.len());
+                spans.push((t, i, gi, usize::MAX));
+            }
+        } else if *id == "rec.inside" && leaves_left[t] > 0 {
+            leaves_left[t] -= 1;
+            if leaves_left[t] == 0 {
+                if let Some(k) = open[t].take() {
+                    spans[k].3 = gi;
+                }
+            }
         }
-        let idx = progs[*t].iter().enumerate().filter(|(_, c)| **c == Call::Emit).nth(k[*t]).map(|x| x.0);
-        k[*t] += 1;
-        let Some(i) = idx else { continue };
-        let Some(res) = o.results[*t].get(i) else { continue };
+    }
+    for (t, i, gi) in ups {
+        let res = o.calls[t][i].res.as_str();
+        let reached = res == "delivered" || res == "panicked";
         let before_end = end_step.map_or(true, |e| gi < e) && rec_step.map_or(true, |e| gi < e);
-        if before_end && res != "delivered" {
+        if before_end && !reached {
             out.oracle_fail(
                 "an emission made while the recovery handle was alive did not reach the recorder",
-                &format!("thread {} call {} trace {:?}", t, i, o.run.trace),
+                &format!("thread {} call {} ({}) trace {:?}", t, i, res, o.run.trace),
             );
         }
         if rec_step.map_or(false, |e| gi > e) && res != "ignored" {
@@ -285,18 +674,32 @@ fn oracle(out: &mut Out, progs: &[Vec<Call>], o: &Outcome) {
                 &format!("thread {} call {} trace {:?}", t, i, o.run.trace),
             );
         }
-        if end_step.map_or(false, |e| gi > e) && res != "ignored" {
-            out.oracle_fail(
-                "an emission made after the handle was dropped reached the recorder (another emission was still inside)",
-                &format!("thread {} call {} trace {:?}", t, i, o.run.trace),
-            );
+        if end_step.map_or(false, |e| gi > e) {
+            // who else is inside the recorder at this upgrade?
+            let someone_inside = spans.iter().any(|(u, _, up, leave)| *u != t && *up < gi && *leave > gi);
+            if someone_inside && res != "ignored" {
+                out.oracle_fail(
+                    "an emission made after the handle was dropped reached the recorder (another emission was still inside)",
+                    &format!("thread {} call {} trace {:?}", t, i, o.run.trace),
+                );
+            }
+            if !someone_inside && res != "ignored" {
+                out.oracle_fail(
+                    "handle dropped and nobody inside the recorder any more, yet a later emission reached it",
+                    &format!("thread {} call {} trace {:?}", t, i, o.run.trace),
+                );
+            }
+            if someone_inside && !reached {
+                // the model decides this one (strong > 0 ⇒ delivered); the correspondence diff reports a divergence
+                out.count("post-drop.ignored.while.someone.inside");
+            }
         }
     }
 }
 
-fn gen_progs(r: &mut Rng) -> Vec<Vec<Call>> {
+fn gen_progs(r: &mut Rng) -> Vec<Vec<Step>> {
     let n = r.range(2, 4);
-    let ender = r.below(n);
+    let ender = if r.chance(1, 12) { usize::MAX } else { r.below(n) };
     let end_call = if r.chance(1, 2) { Call::IntoInner } else { Call::DropHandle };
     let mut progs = vec![];
     for t in 0..n {
@@ -305,9 +708,14 @@ fn gen_progs(r: &mut Rng) -> Vec<Vec<Call>> {
         let end_at = r.below(k + 1);
         for i in 0..=k {
             if t == ender && i == end_at {
-                p.push(end_call);
+                p.push(st(end_call, r));
             } else if i < k {
-                p.push(Call::Emit);
+                let c = match r.below(10) {
+                    0 | 1 => Call::EmitPanic,
+                    2 | 3 => Call::EmitNested,
+                    _ => Call::Emit,
+                };
+                p.push(st(c, r));
             }
         }
         progs.push(p);
@@ -315,13 +723,15 @@ fn gen_progs(r: &mut Rng) -> Vec<Vec<Call>> {
     progs
 }
 
-fn one(out: &mut Out, progs: &[Vec<Call>], sch: &[usize]) {
-    let o = execute(progs, sch);
+fn plain(progs: &[&[Call]]) -> Vec<Vec<Step>> {
+    let mut r = Rng::new(20);
+    progs.iter().map(|p| p.iter().map(|c| st(*c, &mut r)).collect()).collect()
+}
+
+fn one(out: &mut Out, progs: &[Vec<Step>], sch: &[usize]) {
+    let o = execute(progs, Some(sch));
     let taken: Vec<usize> = o.run.trace.iter().map(|(t, _)| *t).collect();
-    out.op(
-        &format!("recover run {} {}", list(progs.iter().map(|p| prog_tok(p))), sched::sched_tok(&taken)),
-        &answer(&o),
-    );
+    out.op(&format!("recover run {} {}", progs_tok(progs), sched::sched_tok(&taken)), &answer(&o));
     // non-trivial: the handle's end happened while an emission was between its upgrade and its return
     let ins = o.run.trace.iter().enumerate().filter(|(_, (_, id))| *id == "rec.inside").map(|x| x.0).collect::<Vec<_>>();
     let ups = o.run.trace.iter().enumerate().filter(|(_, (_, id))| *id == "weak.upgrade").map(|x| x.0).collect::<Vec<_>>();
@@ -332,16 +742,614 @@ fn one(out: &mut Out, progs: &[Vec<Call>], sch: &[usize]) {
             out.count("end.raced.with.emission");
         }
     }
+    for (t, cs) in o.calls.iter().enumerate() {
+        for (i, c) in cs.iter().enumerate() {
+            if progs[t][i].call.is_emission() {
+                out.count(&format!("emission.{}.{}", prog_tok(&progs[t][i..=i]), c.res));
+                out.count(&format!("method.{}", METHODS[progs[t][i].em.as_ref().unwrap().method]));
+                // a thread that survived a panic of the recorder emits again
+                if i > 0 && cs[..i].iter().any(|p| p.res == "panicked") {
+                    out.count(&format!("after.own.panic.{}", c.res));
+                }
+            }
+        }
+    }
     oracle(out, progs, &o);
+}
+
+/// Free-running round: the same thread programs on OS threads without the scheduler (real preemption, real
+/// `Arc` traffic). No schedule is known, so the model is asked for what EVERY complete schedule agrees on
+/// (`recover free`), and the timing-independent oracles apply; emissions are ordered against the ender by a
+/// global SeqCst sequence number: finished before the ender began ⇒ delivered, begun after `into_inner`
+/// returned ⇒ ignored.
+fn free_round(out: &mut Out, progs: &[Vec<Step>]) {
+    let o = execute(progs, None);
+    let ctx = format!("free-running round {} results {:?}", progs_tok(progs), o.results());
+    let all_done = !o.unfinished && o.calls.iter().zip(progs).all(|(c, p)| c.len() == p.len());
+    out.op(
+        &format!("recover free {}", progs_tok(progs)),
+        &format!("done={} finalised={} recovered={} late={} busy={}", all_done, o.finalised_by_library, o.recovered, o.late, o.busy_at_recovery),
+    );
+    if !oracle_common(out, progs, &o, &ctx) {
+        return;
+    }
+    let mut ender: Option<(Call, u64, u64)> = None;
+    for (t, cs) in o.calls.iter().enumerate() {
+        for (i, c) in cs.iter().enumerate() {
+            if !progs[t][i].call.is_emission() {
+                ender = Some((progs[t][i].call, c.t_start, c.t_end));
+            }
+        }
+    }
+    let mut raced = 0;
+    for (t, cs) in o.calls.iter().enumerate() {
+        for (i, c) in cs.iter().enumerate() {
+            if !progs[t][i].call.is_emission() {
+                continue;
+            }
+            let reached = c.res == "delivered" || c.res == "panicked";
+            let before = ender.map_or(true, |(_, s, _)| c.t_end < s);
+            let after = ender.map_or(false, |(_, _, e)| c.t_start > e);
+            if before && !reached {
+                out.oracle_fail(
+                    "an emission made while the recovery handle was alive did not reach the recorder",
+                    &format!("thread {} call {} ({}) {}", t, i, c.res, ctx),
+                );
+            }
+            if after && o.recovered && c.res != "ignored" {
+                out.oracle_fail("an emission made after into_inner returned reached the recorder", &format!("thread {} call {} {}", t, i, ctx));
+            }
+            if !before && !after {
+                raced += 1;
+            }
+        }
+    }
+    if raced > 0 {
+        out.nontrivial();
+        out.count("free.end.overlapped.emissions");
+    }
+    out.count_n("free.emissions.overlapping.the.end", raced);
+}
+
+/// Stress round ("heavy load"): `k` threads emit in a tight loop through the wrapper, for as long as it takes,
+/// while another thread calls `into_inner` (or drops the handle). However the attempts of `into_inner`
+/// interleave with the upgrades, it must come back with the original recorder, nobody inside, never finalised
+/// by the library; nothing may enter afterwards. No op line (the number of emissions is not an input); oracles only.
+fn stress_round(out: &mut Out, r: &mut Rng, recover: bool) {
+    let k = r.range(2, 6);
+    let sh = Shared::new(1);
+    let (wrapped, handle) = RecoverableRecorder::new(Rec { sh: sh.clone() }).verif_build();
+    let wrapped: DynRec = Arc::new(wrapped);
+    // all threads are released together: the first attempts of into_inner fall among the first upgrades (count
+    // leaving 1), later ones into the steady state; the ender's delay scans the alignment
+    let started = Arc::new(Barrier::new(k + 1));
+    let stop = Arc::new(AtomicBool::new(false));
+    let ems: Vec<_> = (0..k)
+        .map(|t| {
+            let (w, sh, started, stop) = (wrapped.clone(), sh.clone(), started.clone(), stop.clone());
+            let last = gen_em(r);
+            std::thread::spawn(move || {
+                TIDX.with(|x| x.set(t + 1));
+                LIGHT.with(|l| l.set(true));
+                let key = Key::from_name("s");
+                let mut n = 0u64;
+                started.wait();
+                while !stop.load(Ordering::Relaxed) && n < 5_000_000 {
+                    match n % 3 {
+                        0 => w.describe_counter(KeyName::from_const_str("s"), None, SharedString::const_str("")),
+                        1 => {
+                            let _ = w.register_gauge(&key, &METAS[0]);
+                        }
+                        _ => w.describe_histogram(KeyName::from_const_str("s"), None, SharedString::const_str("")),
+                    }
+                    n += 1;
+                }
+                LIGHT.with(|l| l.set(false));
+                // left the loop because `stop` was raised (and not because of the cap): then the next emission
+                // begins after the ender is back
+                let stopped = stop.load(Ordering::SeqCst);
+                let after = do_emit(&*w, &last, &sh, t + 1, 0, None);
+                (n, if stopped { after } else { "ignored" })
+            })
+        })
+        .collect();
+    let sh2 = sh.clone();
+    let pre = if r.chance(1, 4) { r.below(20000) } else { r.below(600) };
+    let started2 = started.clone();
+    let ender = std::thread::spawn(move || {
+        started2.wait();
+        for _ in 0..pre {
+            std::hint::spin_loop();
+        }
+        if recover {
+            match std::panic::catch_unwind(std::panic::AssertUnwindSafe(move || handle.into_inner())) {
+                Ok(rec) => {
+                    let inside = sh2.inside_now();
+                    let same = Arc::ptr_eq(&rec.sh, &sh2);
+                    std::mem::forget(rec);
+                    Some((inside, same))
+                }
+                Err(_) => None,
+            }
+        } else {
+            drop(handle);
+            Some((0, true))
+        }
+    });
+    // heavy load: into_inner "may block for an indefinite amount of time" in theory; with 2-4 emitters it gets its
+    // turn within microseconds. 20 s watchdog, then the emitters are stopped (which lets a correct one finish).
+    let in_time = wait_until(|| ender.is_finished(), Duration::from_secs(20));
+    stop.store(true, Ordering::SeqCst);
+    let fin = wait_until(|| ender.is_finished() && ems.iter().all(|e| e.is_finished()), Duration::from_secs(20));
+    if !fin {
+        out.oracle_fail("recoverable recorder: deadlock, timeout or panic", "stress round did not finish");
+        return;
+    }
+    let e = ender.join();
+    let mut total = 0;
+    let mut afters = vec![];
+    for h in ems {
+        match h.join() {
+            Ok((n, a)) => {
+                total += n;
+                afters.push(a);
+            }
+            Err(_) => out.oracle_fail("recoverable recorder: deadlock, timeout or panic", "stress round: an emitting thread panicked"),
+        }
+    }
+    let ctx = format!("stress round: {} threads emitting in a tight loop ({} emissions), {} on another thread", k, total, if recover { "into_inner" } else { "drop(handle)" });
+    out.count_n("stress.emissions", total);
+    if !in_time {
+        out.count("stress.ender.needed.the.emitters.stopped");
+    }
+    match e {
+        Err(_) | Ok(None) => out.oracle_fail("into_inner panicked instead of waiting for the emissions in flight and returning the recorder", &ctx),
+        Ok(Some((inside, same))) => {
+            if inside > 0 {
+                out.oracle_fail("into_inner returned while an emission was executing inside the recorder", &ctx);
+            }
+            if !same {
+                out.oracle_fail("into_inner returned a recorder that is not the original one", &ctx);
+            }
+        }
+    }
+    let fin_n = sh.finalised.load(Ordering::SeqCst);
+    if fin_n != if recover { 0 } else { 1 } {
+        out.oracle_fail("recorder not dropped exactly once after the handle was dropped / dropped although recovered", &format!("finalised {} {}", fin_n, ctx));
+    }
+    if sh.entered_after_final.load(Ordering::SeqCst) {
+        out.oracle_fail("a call entered the recorder after its finalisation began", &ctx);
+    }
+    if sh.final_while_inside.load(Ordering::SeqCst) {
+        out.oracle_fail("the recorder was finalised while a call was inside it", &ctx);
+    }
+    // each emitter's last emission began after the ender was back (`stop` is raised after it finished). After
+    // into_inner the count is zero for good: ignored. After a plain drop another emitter may still be inside its
+    // last loop iteration (K-C20-late-delivery), so there only an emission made after ALL emitters are done counts.
+    if recover && in_time {
+        if let Some(a) = afters.iter().find(|a| **a != "ignored") {
+            out.oracle_fail("an emission made after into_inner returned reached the recorder", &format!("{} {}", a, ctx));
+        }
+    }
+    TIDX.with(|x| x.set(0));
+    let last = do_emit(&*wrapped, &gen_em(r), &sh, 0, 0, None);
+    if last != "ignored" {
+        out.oracle_fail(
+            if recover { "an emission made after into_inner returned reached the recorder" } else { "handle dropped and nobody inside the recorder any more, yet a later emission reached it" },
+            &format!("{} {}", last, ctx),
+        );
+    }
+    out.nontrivial();
+}
+
+fn gen_free(r: &mut Rng) -> Vec<Vec<Step>> {
+    let n = r.range(3, 5);
+    let end_call = if r.chance(3, 4) { Call::IntoInner } else { Call::DropHandle };
+    let mut progs = vec![];
+    for t in 0..n {
+        let mut p = vec![];
+        if t == 0 {
+            for _ in 0..r.below(4) {
+                p.push(st(Call::Emit, r));
+            }
+            p.push(st(end_call, r));
+            for _ in 0..r.below(3) {
+                p.push(st(Call::Emit, r));
+            }
+        } else {
+            for _ in 0..r.range(8, 40) {
+                let c = match r.below(20) {
+                    0 => Call::EmitPanic,
+                    1 => Call::EmitNested,
+                    _ => Call::Emit,
+                };
+                p.push(st(c, r));
+            }
+        }
+        progs.push(p);
+    }
+    progs
+}
+
+// ---------------------------------------------------------------------------------------------------------
+// long-held emission against a spinning into_inner (no scheduler): `into_inner` must keep waiting however
+// many attempts it takes. The hook counts the ender's passes through the loop head and lets the emission
+// leave only after `target` of them, so the number of failed attempts is chosen by the harness, not by timing.
+
+static HOLD_SPINS: AtomicU64 = AtomicU64::new(0);
+static HOLD_TARGET: AtomicU64 = AtomicU64::new(0);
+static HOLD_GO: AtomicBool = AtomicBool::new(false);
+
+fn hold_hook(id: &'static str) {
+    if id == "spin0:recover.try_unwrap" && IS_ENDER.with(|e| e.get()) {
+        let n = HOLD_SPINS.fetch_add(1, Ordering::SeqCst) + 1;
+        if n >= HOLD_TARGET.load(Ordering::SeqCst) {
+            HOLD_GO.store(true, Ordering::SeqCst);
+        }
+    }
+}
+
+fn wait_until(f: impl Fn() -> bool, limit: Duration) -> bool {
+    let t0 = Instant::now();
+    while !f() {
+        if t0.elapsed() > limit {
+            return false;
+        }
+        std::thread::sleep(Duration::from_micros(100));
+    }
+    true
+}
+
+fn hold_round(out: &mut Out, r: &mut Rng, target: u64) {
+    let sh = Shared::new(1);
+    let (wrapped, handle) = RecoverableRecorder::new(Rec { sh: sh.clone() }).verif_build();
+    let wrapped: DynRec = Arc::new(wrapped);
+    HOLD_SPINS.store(0, Ordering::SeqCst);
+    HOLD_TARGET.store(target, Ordering::SeqCst);
+    HOLD_GO.store(false, Ordering::SeqCst);
+    let em = gen_em(r);
+    let (w2, sh2) = (wrapped.clone(), sh.clone());
+    let emitter = std::thread::spawn(move || {
+        TIDX.with(|x| x.set(1));
+        do_emit(&*w2, &em, &sh2, 1, 3, None)
+    });
+    if !wait_until(|| sh.hold_entered.load(Ordering::SeqCst), Duration::from_secs(10)) {
+        out.oracle_fail("an emission made while the recovery handle was alive did not reach the recorder", "long-hold round: the emission never entered");
+        HOLD_GO.store(true, Ordering::SeqCst);
+        sh.hold_release.store(true, Ordering::SeqCst);
+        let _ = emitter.join();
+        return;
+    }
+    metrics::verif::set_hook(Some(hold_hook));
+    let sh3 = sh.clone();
+    let ender = std::thread::spawn(move || {
+        IS_ENDER.with(|e| e.set(true));
+        let rec = handle.into_inner();
+        let go = HOLD_GO.load(Ordering::SeqCst);
+        let inside = sh3.inside.load(Ordering::SeqCst);
+        let same = Arc::ptr_eq(&rec.sh, &sh3);
+        std::mem::forget(rec);
+        (go, inside, same)
+    });
+    // forwards the harness-chosen release to the recorder double; backstop: an into_inner that sleeps between
+    // attempts would need ages for `target` passes, so after 5 s the emission is let go anyway (the oracle below
+    // is about ORDER — returned before the release or not — never about time)
+    let t0 = Instant::now();
+    while !HOLD_GO.load(Ordering::SeqCst) && !ender.is_finished() && t0.elapsed() < Duration::from_secs(5) {
+        std::thread::sleep(Duration::from_micros(50));
+    }
+    let returned_early = ender.is_finished() && !HOLD_GO.load(Ordering::SeqCst);
+    HOLD_GO.store(true, Ordering::SeqCst);
+    sh.hold_release.store(true, Ordering::SeqCst);
+    let fin = wait_until(|| ender.is_finished() && emitter.is_finished(), Duration::from_secs(20));
+    metrics::verif::set_hook(None);
+    let spins = HOLD_SPINS.load(Ordering::SeqCst);
+    out.count_n("hold.into_inner.failed.attempts.waited.out", spins);
+    if !fin {
+        out.oracle_fail("recoverable recorder: deadlock, timeout or panic", &format!("long-hold round: into_inner or the emission did not finish; attempts {}", spins));
+        return;
+    }
+    let em_res = emitter.join().unwrap_or("emitter-panicked");
+    match ender.join() {
+        Err(_) => out.oracle_fail("into_inner panicked instead of waiting for the emissions in flight and returning the recorder", &format!("long-hold round after {} attempts", spins)),
+        Ok((go, inside, same)) => {
+            if returned_early || !go || inside > 0 {
+                out.oracle_fail(
+                    "into_inner returned while an emission was executing inside the recorder",
+                    &format!("long-hold round: one emission held inside; into_inner gave up after {} attempts (inside={}, released={})", spins, inside, go),
+                );
+            }
+            if !same {
+                out.oracle_fail("into_inner returned a recorder that is not the original one", "long-hold round");
+            }
+        }
+    }
+    if em_res != "delivered" {
+        out.oracle_fail("an emission made while the recovery handle was alive did not reach the recorder", &format!("long-hold round: held emission {}", em_res));
+    }
+    if sh.finalised.load(Ordering::SeqCst) != 0 || sh.final_while_inside.load(Ordering::SeqCst) {
+        out.oracle_fail("recorder not dropped exactly once after the handle was dropped / dropped although recovered", "long-hold round: finalised by the library although recovered");
+    }
+    let after = do_emit(&*wrapped, &gen_em(r), &sh, 0, 0, None);
+    if after != "ignored" {
+        out.oracle_fail("an emission made after into_inner returned reached the recorder", &format!("long-hold round: {}", after));
+    }
+    out.nontrivial();
+}
+
+// ---------------------------------------------------------------------------------------------------------
+// the real `install` (the process-wide recorder cell can be taken once per process: one successful install,
+// then failing ones), driven through the `metrics` macros
+
+/// forwards to whatever the process-wide recorder is (what the macros do)
+struct ViaGlobal;
+impl Recorder for ViaGlobal {
+    fn describe_counter(&self, k: KeyName, u: Option<Unit>, d: SharedString) {
+        metrics::with_recorder(|r| r.describe_counter(k, u, d))
+    }
+    fn describe_gauge(&self, k: KeyName, u: Option<Unit>, d: SharedString) {
+        metrics::with_recorder(|r| r.describe_gauge(k, u, d))
+    }
+    fn describe_histogram(&self, k: KeyName, u: Option<Unit>, d: SharedString) {
+        metrics::with_recorder(|r| r.describe_histogram(k, u, d))
+    }
+    fn register_counter(&self, k: &Key, m: &Metadata<'_>) -> Counter {
+        metrics::with_recorder(|r| r.register_counter(k, m))
+    }
+    fn register_gauge(&self, k: &Key, m: &Metadata<'_>) -> Gauge {
+        metrics::with_recorder(|r| r.register_gauge(k, m))
+    }
+    fn register_histogram(&self, k: &Key, m: &Metadata<'_>) -> Histogram {
+        metrics::with_recorder(|r| r.register_histogram(k, m))
+    }
+}
+
+/// three emissions through the macros on the calling thread; returns what went wrong (empty = as expected)
+fn macro_probe(sh: &Arc<Shared>, t: usize, want_reached: bool) -> Vec<String> {
+    let mut bad = vec![];
+    TIDX.with(|x| x.set(t));
+    let mp = module_path!();
+    let snap = || [0usize, 1, 2].map(|k| sh.cells[t][k].0.load(Ordering::SeqCst));
+    let mut check = |what: &str, want: String, delta: [u64; 3], b: [u64; 3]| {
+        let got = ARRIVED.with(|a| {
+            let mut a = a.borrow_mut();
+            let x = a.first().cloned();
+            a.clear();
+            x
+        });
+        let a = snap();
+        let d = [a[0].wrapping_sub(b[0]), a[1].wrapping_sub(b[1]), a[2].wrapping_sub(b[2])];
+        if want_reached {
+            if got.as_deref() != Some(want.as_str()) {
+                bad.push(format!("{}: sent [{}] arrived [{:?}]", what, want, got));
+            } else if d != delta {
+                bad.push(format!("{}: handle obtained through the macro is not the recorder's (cells moved {:?}, want {:?})", what, d, delta));
+            }
+        } else if got.is_some() || d != [0, 0, 0] {
+            bad.push(format!("{}: reached the recorder / live handle (arrived {:?}, cells moved {:?})", what, got, d));
+        }
+    };
+    ARRIVED.with(|a| a.borrow_mut().clear());
+    let b = snap();
+    metrics::counter!("inst.c", "k" => "v", "l" => "").increment(5);
+    check("counter!", format!("register_counter inst.c{{k=v,l=}} target={} level={:?} mp={:?}", mp, Level::INFO, Some(mp)), [5, 0, 0], b);
+    let b = snap();
+    metrics::describe_gauge!("inst.g", Unit::Bytes, "some gauge");
+    check("describe_gauge!", format!("describe_gauge inst.g {:?} some gauge", Some(Unit::Bytes)), [0, 0, 0], b);
+    let b = snap();
+    metrics::histogram!(target: "tg", level: Level::DEBUG, "inst.h").record(2.0);
+    check("histogram!", format!("register_histogram inst.h{{}} target=tg level={:?} mp={:?}", Level::DEBUG, Some(mp)), [0, 0, 2], b);
+    let b = snap();
+    metrics::gauge!(level: Level::WARN, "inst.gg", "a" => "b").increment(3.0);
+    check("gauge!", format!("register_gauge inst.gg{{a=b}} target={} level={:?} mp={:?}", mp, Level::WARN, Some(mp)), [0, 3, 0], b);
+    bad
+}
+
+fn install_scenario(out: &mut Out, r: &mut Rng) {
+    out.case("install (real global recorder, macros)");
+    let sh1 = Shared::new(1);
+    let first = RecoverableRecorder::new(Rec { sh: sh1.clone() }).install();
+    let h1 = match first {
+        Ok(h) => {
+            out.op("recover install ~ 1", "cell=1 installed");
+            h
+        }
+        Err(_) => {
+            out.op("recover install ~ 1", "cell=? install failed on an empty process-wide cell");
+            out.oracle_fail("install failed although no global recorder existed", "first install of the process");
+            return;
+        }
+    };
+    for b in macro_probe(&sh1, 0, true) {
+        out.oracle_fail("an emission made while the recovery handle was alive did not reach the recorder", &format!("after install, through the metrics macros: {}", b));
+    }
+    // failing installs: two one after the other, then three at once while another thread keeps emitting
+    let stop = Arc::new(AtomicBool::new(false));
+    let attempt = |id: usize| -> std::thread::JoinHandle<(Arc<Shared>, Result<(), Rec>)> {
+        std::thread::spawn(move || {
+            let sh = Shared::new(id);
+            let r = RecoverableRecorder::new(Rec { sh: sh.clone() }).install();
+            match r {
+                Ok(h) => {
+                    std::mem::forget(h);
+                    (sh, Ok(()))
+                }
+                Err(e) => (sh, Err(e.into_inner())),
+            }
+        })
+    };
+    let mut judge = |out: &mut Out, id: usize, h: std::thread::JoinHandle<(Arc<Shared>, Result<(), Rec>)>| {
+        // the error arm of install calls into_inner on a pair nobody else can reach: it returns at once;
+        // 20 s watchdog against a variant that waits for something that never comes
+        if !wait_until(|| h.is_finished(), Duration::from_secs(20)) {
+            out.op(&format!("recover install 1 {}", id), "install did not return");
+            out.oracle_fail("failed install did not hand the recorder back (install never returned)", &format!("recorder {}", id));
+            return;
+        }
+        match h.join() {
+            Err(_) => {
+                out.op(&format!("recover install 1 {}", id), "install panicked");
+                out.oracle_fail("failed install did not hand the recorder back (install panicked)", &format!("recorder {}", id));
+            }
+            Ok((_, Ok(()))) => {
+                out.op(&format!("recover install 1 {}", id), "cell=? installed");
+                out.oracle_fail("a second install succeeded although a global recorder already existed", &format!("recorder {}", id));
+            }
+            Ok((sh, Err(rec))) => {
+                let fin = sh.finalised.load(Ordering::SeqCst);
+                let same = Arc::ptr_eq(&rec.sh, &sh);
+                out.op(
+                    &format!("recover install 1 {}", id),
+                    &format!("cell=1 handed-back id={} finalised={} recovered={}", rec.sh.id, fin, same),
+                );
+                if !same || fin != 0 || sh.inside.load(Ordering::SeqCst) != 0 {
+                    out.oracle_fail("failed install did not hand the original recorder back intact", &format!("recorder {}: same={} finalised={}", id, same, fin));
+                }
+                drop(rec);
+                if sh.finalised.load(Ordering::SeqCst) != 1 {
+                    out.oracle_fail("recorder handed back by a failed install is not dropped exactly once by its owner", &format!("recorder {}: finalised {}", id, sh.finalised.load(Ordering::SeqCst)));
+                }
+            }
+        }
+    };
+    for id in [2usize, 3] {
+        let h = attempt(id);
+        judge(out, id, h);
+    }
+    let (sh1b, stop2) = (sh1.clone(), stop.clone());
+    let emitter = std::thread::spawn(move || {
+        let mut bad = vec![];
+        let mut n = 0u64;
+        while !stop2.load(Ordering::SeqCst) && n < 200_000 {
+            bad.extend(macro_probe(&sh1b, 1, true));
+            n += 1;
+        }
+        (bad, n)
+    });
+    let hs: Vec<_> = [4usize, 5, 6].into_iter().map(|id| (id, attempt(id))).collect();
+    for (id, h) in hs {
+        judge(out, id, h);
+    }
+    stop.store(true, Ordering::SeqCst);
+    match emitter.join() {
+        Ok((bad, n)) => {
+            out.count_n("install.macro.emissions.during.failing.installs", n * 4);
+            if let Some(b) = bad.first() {
+                out.oracle_fail("an emission made while the recovery handle was alive did not reach the recorder", &format!("through the macros while other installs were failing: {}", b));
+            }
+        }
+        Err(_) => out.oracle_fail("recoverable recorder: deadlock, timeout or panic", "macro emitter panicked"),
+    }
+    // the failing installs left the installed pair alone
+    for b in macro_probe(&sh1, 0, true) {
+        out.oracle_fail("an emission made while the recovery handle was alive did not reach the recorder", &format!("after failed installs of other recorders: {}", b));
+    }
+    // the installed recorder panics inside a forwarded call; the thread survives and emits again
+    TIDX.with(|x| x.set(0));
+    let g: DynRec = Arc::new(ViaGlobal);
+    let p = do_emit(&*g, &gen_em(r), &sh1, 0, 1, None);
+    let a = do_emit(&*g, &gen_em(r), &sh1, 0, 0, None);
+    if p != "panicked" || a != "delivered" {
+        out.oracle_fail("an emission made while the recovery handle was alive did not reach the recorder", &format!("global wrapper: recorder panicked in a forwarded call ({}), next emission of the same thread: {}", p, a));
+    }
+    // the installed recorder emits through the global wrapper from inside a forwarded call
+    NEST_RESULT.with(|x| *x.borrow_mut() = None);
+    let o = do_emit(&*g, &gen_em(r), &sh1, 0, 2, Some((g.clone(), gen_em(r), sh1.clone())));
+    let n = NEST_RESULT.with(|x| x.borrow_mut().take());
+    if o != "delivered" || n != Some("delivered") {
+        out.oracle_fail(
+            "an emission made from inside the recorder (same wrapper, the thread holds a strong reference) did not reach the recorder",
+            &format!("global wrapper: outer {} nested {:?}", o, n),
+        );
+    }
+    // a SECOND recoverable pair (local) whose recorder emits to the installed one from inside its forwarded call
+    let sh_b = Shared::new(50);
+    let (wb, hb) = RecoverableRecorder::new(Rec { sh: sh_b.clone() }).verif_build();
+    NEST_RESULT.with(|x| *x.borrow_mut() = None);
+    let o = do_emit(&wb, &gen_em(r), &sh_b, 0, 2, Some((g.clone(), gen_em(r), sh1.clone())));
+    let n = NEST_RESULT.with(|x| x.borrow_mut().take());
+    if o != "delivered" || n != Some("delivered") {
+        out.oracle_fail(
+            "an emission made while the recovery handle was alive did not reach the recorder",
+            &format!("issued from inside a forwarded call of ANOTHER recoverable pair on the same thread: outer {} inner (to the installed recorder) {:?}", o, n),
+        );
+    }
+    let rb = hb.into_inner();
+    if !Arc::ptr_eq(&rb.sh, &sh_b) || sh_b.finalised.load(Ordering::SeqCst) != 0 {
+        out.oracle_fail("into_inner returned a recorder that is not the original one", "second pair");
+    }
+    drop(rb);
+    drop(wb);
+    // recovery of the installed recorder while threads emit through the macros
+    let stop = Arc::new(AtomicBool::new(false));
+    let ems: Vec<_> = (1..4usize)
+        .map(|t| {
+            let (sh, stop) = (sh1.clone(), stop.clone());
+            std::thread::spawn(move || {
+                TIDX.with(|x| x.set(t));
+                let mut n = 0u64;
+                while !stop.load(Ordering::SeqCst) && n < 100_000 {
+                    metrics::counter!("inst.bg").increment(1);
+                    metrics::describe_histogram!("inst.bg.h", "d");
+                    ARRIVED.with(|a| a.borrow_mut().clear());
+                    n += 1;
+                }
+            })
+        })
+        .collect();
+    std::thread::sleep(Duration::from_millis(2));
+    let sh1c = sh1.clone();
+    let rec_t = std::thread::spawn(move || {
+        let rec = h1.into_inner();
+        let inside = sh1c.inside.load(Ordering::SeqCst);
+        (rec, inside)
+    });
+    let fin = wait_until(|| rec_t.is_finished(), Duration::from_secs(20));
+    stop.store(true, Ordering::SeqCst);
+    for e in ems {
+        let _ = e.join();
+    }
+    if !fin {
+        out.oracle_fail("recoverable recorder: deadlock, timeout or panic", "into_inner of the installed recorder did not return within 20 s after install (strong reference leaked?)");
+        return;
+    }
+    match rec_t.join() {
+        Err(_) => out.oracle_fail("into_inner panicked instead of waiting for the emissions in flight and returning the recorder", "installed recorder, macros emitting on 3 threads"),
+        Ok((rec, inside)) => {
+            if inside > 0 {
+                out.oracle_fail("into_inner returned while an emission was executing inside the recorder", "installed recorder, macros emitting on 3 threads");
+            }
+            if !Arc::ptr_eq(&rec.sh, &sh1) || sh1.finalised.load(Ordering::SeqCst) != 0 {
+                out.oracle_fail("into_inner returned a recorder that is not the original one", "installed recorder");
+            }
+            for b in macro_probe(&sh1, 0, false) {
+                out.oracle_fail("an emission made after into_inner returned reached the recorder", &format!("through the macros: {}", b));
+            }
+            drop(rec);
+            if sh1.finalised.load(Ordering::SeqCst) != 1 || sh1.entered_after_final.load(Ordering::SeqCst) || sh1.final_while_inside.load(Ordering::SeqCst) {
+                out.oracle_fail("a call entered the recorder after its finalisation began", "installed recorder after recovery and drop by its owner");
+            }
+        }
+    }
+    out.nontrivial();
 }
 
 pub fn run(cfg: &Cfg, out: &mut Out) {
     let root = Rng::new(cfg.seed);
-    let corpus: Vec<(Vec<Vec<Call>>, Vec<usize>)> = vec![
+    use Call::*;
+    install_scenario(out, &mut root.fork(1_000_003));
+    let corpus: Vec<(Vec<Vec<Step>>, Vec<usize>)> = vec![
         // K-C20-late-delivery: handle dropped while an emission is inside, a later emission is still delivered
-        (vec![vec![Call::Emit], vec![Call::DropHandle], vec![Call::Emit]], vec![0, 1, 2, 0, 1, 2, 2, 0]),
-        (vec![vec![Call::Emit, Call::Emit], vec![Call::IntoInner], vec![Call::Emit]], vec![0, 1, 2, 0, 1, 1, 0, 1, 2, 0, 0]),
-        (vec![vec![Call::Emit], vec![Call::IntoInner]], vec![0, 1, 0, 1, 1, 0, 1]),
+        (plain(&[&[Emit], &[DropHandle], &[Emit]]), vec![0, 1, 2, 0, 1, 2, 2, 0]),
+        (plain(&[&[Emit, Emit], &[IntoInner], &[Emit]]), vec![0, 1, 2, 0, 1, 1, 0, 1, 2, 0, 0]),
+        (plain(&[&[Emit], &[IntoInner]]), vec![0, 1, 0, 1, 1, 0, 1]),
+        // the recorder panics inside a forwarded call; the thread survives and emits again (handle alive)
+        (plain(&[&[EmitPanic, Emit, EmitPanic, EmitNested], &[Emit]]), vec![0, 0, 0, 1, 0, 0, 1, 1, 0, 0, 0, 0, 0, 0, 0]),
+        // re-entrant emission: alone; racing into_inner; after the handle was dropped while the outer call is inside
+        (plain(&[&[EmitNested, Emit]]), vec![0; 10]),
+        (plain(&[&[EmitNested], &[IntoInner], &[Emit]]), vec![0, 1, 2, 0, 1, 0, 1, 2, 0, 1, 0, 1, 1, 2, 2]),
+        (plain(&[&[EmitNested], &[DropHandle]]), vec![0, 1, 0, 1, 0, 0, 0, 0]),
+        (plain(&[&[EmitPanic], &[DropHandle], &[EmitNested]]), vec![0, 1, 2, 0, 1, 2, 2, 2, 0, 2]),
     ];
     for (progs, sch) in corpus {
         out.case("corpus");
@@ -353,34 +1361,72 @@ pub fn run(cfg: &Cfg, out: &mut Out) {
         let progs = gen_progs(&mut r);
         let mut sch = vec![];
         let mut cur = r.below(progs.len());
-        for _ in 0..40 {
+        for _ in 0..60 {
             if r.chance(1, 2) {
                 cur = r.below(progs.len());
             }
             sch.push(cur);
         }
-        out.count(&format!("threads={} end={:?}", progs.len(), progs.iter().flatten().find(|c| **c != Call::Emit)));
+        out.count(&format!("threads={} end={:?}", progs.len(), progs.iter().flatten().map(|c| c.call).find(|c| !c.is_emission())));
         one(out, &progs, &sch);
     }
+    // free-running rounds (no scheduler)
+    let rounds = if cfg.thorough { cfg.cases * 2 } else { cfg.cases };
+    let base = out.n_oracle_fail;
+    for i in 0..rounds {
+        let mut r = root.fork(2_000_000 + i as u64);
+        out.case(&format!("free seed={} i={}", cfg.seed, i));
+        let progs = gen_free(&mut r);
+        free_round(out, &progs);
+        if out.n_oracle_fail > base + 20 {
+            break;
+        }
+    }
+    // stress rounds: tight emission loops against into_inner / handle drop
+    out.case("stress");
+    let rounds = if cfg.thorough { 20000 } else { 2000 };
+    let base = out.n_oracle_fail;
+    // wall-clock budget (oracle-only phase, no op lines): on an oversubscribed machine into_inner needs longer to
+    // find the count at 1 against tight emitters; the number of rounds done is in the distribution table
+    let budget = Duration::from_secs(if cfg.thorough { 90 } else { 12 });
+    let t_stress = Instant::now();
+    for i in 0..rounds {
+        if t_stress.elapsed() > budget {
+            out.count("stress.stopped.by.time.budget");
+            break;
+        }
+        let mut r = root.fork(4_000_000 + i as u64);
+        let recover = i % 5 != 4;
+        stress_round(out, &mut r, recover);
+        out.count(if recover { "stress.rounds.into_inner" } else { "stress.rounds.drop" });
+        if out.n_oracle_fail > base + 20 {
+            break;
+        }
+    }
+    // long-held emission against a spinning into_inner
+    for (k, target) in (if cfg.thorough { vec![1u64, 70, 5_000, 3_000_000] } else { vec![1u64, 70, 300_000] }).into_iter().enumerate() {
+        out.case(&format!("hold target={}", target));
+        hold_round(out, &mut root.fork(3_000_000 + k as u64), target);
+    }
     if cfg.thorough {
-        let configs: Vec<Vec<Vec<Call>>> = vec![
-            vec![vec![Call::Emit, Call::Emit], vec![Call::IntoInner], vec![Call::Emit]],
-            vec![vec![Call::Emit, Call::Emit], vec![Call::DropHandle], vec![Call::Emit]],
-            vec![vec![Call::Emit], vec![Call::Emit, Call::IntoInner, Call::Emit]],
+        let configs: Vec<Vec<Vec<Step>>> = vec![
+            plain(&[&[Emit, Emit], &[IntoInner], &[Emit]]),
+            plain(&[&[Emit, Emit], &[DropHandle], &[Emit]]),
+            plain(&[&[Emit], &[Emit, IntoInner, Emit]]),
+            plain(&[&[EmitNested], &[IntoInner], &[Emit]]),
+            plain(&[&[EmitNested], &[DropHandle], &[EmitPanic]]),
+            plain(&[&[EmitPanic, Emit], &[IntoInner, Emit]]),
         ];
         for progs in configs {
             let mut prefix: Vec<usize> = vec![];
             let mut runs = 0usize;
             let mut exhausted = false;
-            out.case(&format!("exhaustive {}", list(progs.iter().map(|p| prog_tok(p)))));
+            out.case(&format!("exhaustive {}", progs_tok(&progs)));
             loop {
-                let o = execute(&progs, &prefix);
+                let o = execute(&progs, Some(&prefix));
                 runs += 1;
                 let taken: Vec<usize> = o.run.trace.iter().map(|(t, _)| *t).collect();
-                out.op(
-                    &format!("recover run {} {}", list(progs.iter().map(|p| prog_tok(p))), sched::sched_tok(&taken)),
-                    &answer(&o),
-                );
+                out.op(&format!("recover run {} {}", progs_tok(&progs), sched::sched_tok(&taken)), &answer(&o));
                 oracle(out, &progs, &o);
                 if runs >= 20000 {
                     break;
@@ -405,7 +1451,7 @@ pub fn run(cfg: &Cfg, out: &mut Out) {
                     }
                 }
             }
-            out.count_n(&format!("exhaustive.runs.{}", list(progs.iter().map(|p| prog_tok(p)))), runs as u64);
+            out.count_n(&format!("exhaustive.runs.{}", progs_tok(&progs)), runs as u64);
             out.count(&format!("exhaustive.complete={}", exhausted));
             out.nontrivial();
         }
